@@ -128,7 +128,7 @@ func (f *upstreamLimiter) Load(name string) (flowcontrol.FlowControl, bool) {
 			reason = "remote flowcontrol is not synced"
 		}
 	case flowcontrol.LocalFlowControls:
-		return fcw.LocalFlowControl(), true
+		return fcw.LocalFlowControl().Current(), true
 	default:
 		reason = fmt.Sprintf("unkonwn rateLimiter type %s", f.rateLimiter)
 	}
@@ -143,7 +143,7 @@ func (f *upstreamLimiter) Load(name string) (flowcontrol.FlowControl, bool) {
 	}
 
 	// use local limiter by default
-	return fcw.LocalFlowControl(), true
+	return fcw.LocalFlowControl().Current(), true
 }
 func (f *upstreamLimiter) Sync(flowControls proxyv1alpha1.FlowControl) {
 	f.syncLocalFlowControls(flowControls)
